@@ -230,6 +230,12 @@ W_C10_QuoteExact(x) ==
           /\ x.r.out.max = MaxRecords
           /\ x.r.out.pay = x.g.paid)
 
+\* "payments received, which survive restarts": after a restart the count is the one received so far, unless a
+\* metrics flush was still pending when the process stopped
+W_C10_PaySurvivesRestart(x) ==
+    IF x.ev # "Restart" THEN {} ELSE
+    Only0((\E j \in 1..Len(x.s.tasks) : x.s.tasks[j].kind = "F") \/ x.r.st.pay = x.g.paid)
+
 GhostNext(g, x) ==
     LET rm == Lost(x) \cup (IF x.ev = "Remove" THEN {x.k} ELSE {})
         acc == x.ev = "PutVerified" /\ x.r.res = "Ok"
@@ -275,13 +281,14 @@ GhostNext(g, x) ==
                   ELSE g.paid ]
 
 Clauses == {"C01_GetSound", "C01_SettledReadback", "C02_NoCorruptAfterRestart", "C02_CompletedWritesDurable",
-            "C02_RemovalsStay", "C10_Capacity", "C10_Admission", "C10_ViewsAgree", "C10_CleanupOnlyOutside",
+            "C02_RemovalsStay", "C10_Capacity", "C10_Admission", "C10_ViewsAgree", "C10_CleanupOnlyOutside", "C10_PaySurvivesRestart",
             "C10_QuoteExact"}
 Witnesses(c, x) == CASE c = "C01_GetSound" -> W_C01_GetSound(x)
                  [] c = "C01_SettledReadback" -> W_C01_SettledReadback(x)
                  [] c = "C02_NoCorruptAfterRestart" -> W_C02_NoCorruptAfterRestart(x)
                  [] c = "C02_CompletedWritesDurable" -> W_C02_CompletedWritesDurable(x)
                  [] c = "C02_RemovalsStay" -> W_C02_RemovalsStay(x)
+                 [] c = "C10_PaySurvivesRestart" -> W_C10_PaySurvivesRestart(x)
                  [] c = "C10_Capacity" -> W_C10_Capacity(x)
                  [] c = "C10_Admission" -> W_C10_Admission(x)
                  [] c = "C10_ViewsAgree" -> W_C10_ViewsAgree(x)
